@@ -506,3 +506,95 @@ Example entity_forward_example :
   let rdel := rdel_of 1 [true; false; false; true] in
   exists b, e_begin rdel 4 0 = Some b /\ e_trace 5 rdel 4 b = Some ([1%Z; 2%Z], e_end 4).
 Proof. eexists; split; reflexivity. Qed.
+
+(* ------------------------------------------------------------------ all ++ / -- / constructor variants at once *)
+
+Lemma trace_ext (P : cstate -> Prop) f g :
+  (forall c, P c -> f c = g c) -> (forall c c', P c -> f c = Some c' -> P c') ->
+  forall fuel c, P c -> c_trace fuel f c = c_trace fuel g c.
+Proof.
+  intros E Pres. induction fuel as [|fuel IH]; intros c Pc; simpl; [reflexivity|].
+  destruct (c_valid c); [|reflexivity]. destruct (c_cur c); [|reflexivity].
+  rewrite <- (E c Pc). destruct (f c) as [c'|] eqn:F; [|reflexivity].
+  rewrite (IH c' (Pres c c' Pc F)). reflexivity.
+Qed.
+
+Lemma iter_ext (P : cstate -> Prop) f g :
+  (forall c, P c -> f c = g c) -> (forall c c', P c -> f c = Some c' -> P c') ->
+  forall k c, P c -> c_iter k f c = c_iter k g c.
+Proof.
+  intros E Pres. induction k as [|k IH]; intros c Pc; simpl; [reflexivity|].
+  rewrite <- (E c Pc). destruct (f c) as [c'|] eqn:F; [|reflexivity]. apply IH. exact (Pres c c' Pc F).
+Qed.
+
+Lemma next_any_eq nx l m c : c_idx c < length l -> c_next nx l m c = c_next NextEq l m c.
+Proof. destruct nx; [reflexivity|apply next_ge_eq]. Qed.
+
+Lemma begin_any cv x t : c_begin cv (x :: t) = Some (mkC 0 0%Z true (Some x)).
+Proof. destruct cv; reflexivity. Qed.
+
+(* C05_forward for every variant *)
+Theorem forward_trace_any nx cv (l : list nat) (M : nat) x t fuel :
+  l = x :: t -> 1 <= M -> M * length l <= fuel ->
+  exists b, c_begin cv l = Some b /\ c_valid b = true /\ c_cur b = Some x /\
+            c_trace fuel (c_next nx l (Z.of_nat M)) b
+            = Some (concat (repeat l M), mkC 0 (Z.of_nat M) false (Some x)).
+Proof.
+  intros E HM Hf. exists (mkC 0 0%Z true (Some x)). subst l. rewrite begin_any.
+  split; [reflexivity|]. split; [reflexivity|]. split; [reflexivity|].
+  rewrite (trace_ext (c_wf (x :: t) (Z.of_nat M)) (c_next nx (x :: t) (Z.of_nat M)) (c_next NextEq (x :: t) (Z.of_nat M))).
+  - rewrite (forward_trace (x :: t) M ltac:(discriminate) HM x t fuel eq_refl Hf). reflexivity.
+  - intros c (Hi & _). apply next_any_eq. exact Hi.
+  - intros c c' W N. rewrite next_any_eq in N by (destruct W; assumption). exact (next_wf _ _ _ _ W N).
+  - apply (begin_wf (x :: t) (Z.of_nat M) x t eq_refl). lia.
+Qed.
+
+(* C05_end for every variant *)
+Theorem end_is_advanced_begin_any nx cv (l : list nat) (M : nat) x t :
+  l = x :: t -> 1 <= M ->
+  exists b, c_begin cv l = Some b /\
+            c_iter (M * length l) (c_next nx l (Z.of_nat M)) b = Some (c_make_end (Z.of_nat M) b).
+Proof.
+  intros E HM. exists (mkC 0 0%Z true (Some x)). subst l. rewrite begin_any. split; [reflexivity|].
+  rewrite (iter_ext (c_wf (x :: t) (Z.of_nat M)) (c_next nx (x :: t) (Z.of_nat M)) (c_next NextEq (x :: t) (Z.of_nat M))).
+  - apply (end_is_advanced_begin (x :: t) M x t eq_refl HM).
+  - intros c (Hi & _). apply next_any_eq. exact Hi.
+  - intros c c' W N. rewrite next_any_eq in N by (destruct W; assumption). exact (next_wf _ _ _ _ W N).
+  - apply (begin_wf (x :: t) (Z.of_nat M) x t eq_refl). lia.
+Qed.
+
+(* C05_back for every variant: inside the valid range -- undoes ++ and ++ undoes -- *)
+Theorem prev_next_any nx pv l m c c' :
+  c_wf l m c -> c_valid c = true -> c_next nx l m c = Some c' -> c_valid c' = true ->
+  c_prev pv l c' = Some c.
+Proof.
+  intros W V N V'. rewrite next_any_eq in N by (destruct W; assumption).
+  pose proof (next_wf _ _ _ _ W N) as W'. pose proof (prev_next _ _ _ _ W V N V') as P.
+  destruct pv; [exact P| |].
+  - rewrite prev_dec_wrap by (destruct W'; assumption). exact P.
+  - rewrite prev_early_wrap; [exact P|destruct W'; assumption| |exact V'].
+    destruct W as (Hi & _ & Hv). specialize (Hv V). rewrite next_eq_step in N by exact Hi.
+    destruct (S (c_idx c) =? length l); injection N as <-; simpl; [right; lia|left; lia].
+Qed.
+
+Theorem next_prev_any nx pv l m c c' :
+  c_wf l m c -> c_valid c = true -> c_prev pv l c = Some c' -> c_valid c' = true ->
+  c_next nx l m c' = Some c.
+Proof.
+  intros W V N V'.
+  assert (N' : c_prev PrevWrap l c = Some c').
+  { destruct pv; [exact N| |].
+    - rewrite prev_dec_wrap in N by (destruct W; assumption). exact N.
+    - destruct (Nat.eq_dec (c_idx c) 0) as [E0|E0]; [|rewrite prev_early_wrap in N by (try tauto; destruct W; assumption); exact N].
+      destruct (Z.ltb_spec (c_lap c - 1) 0) as [Hl|Hl].
+      + unfold c_prev in N. rewrite E0 in N. simpl in N. destruct (Z.ltb_spec (c_lap c - 1) 0); [|lia].
+        injection N as <-. discriminate.
+      + rewrite prev_early_wrap in N by (try (right; lia); destruct W; assumption). exact N. }
+  pose proof (prev_wf _ _ _ _ W N') as W'.
+  rewrite next_any_eq by (destruct W'; assumption). exact (next_prev _ _ _ _ W V N' V').
+Qed.
+
+(* the invariant is preserved by every variant, so it holds in every state reached from begin by any
+   sequence of ++ / -- that stays defined and valid-or-not *)
+Lemma next_wf_any nx l m c c' : c_wf l m c -> c_next nx l m c = Some c' -> c_wf l m c'.
+Proof. intros W N. rewrite next_any_eq in N by (destruct W; assumption). exact (next_wf _ _ _ _ W N). Qed.
